@@ -273,6 +273,8 @@ class TermDomain(Domain):
                 return Agg("tuple", None, None, None, (r, Const(False)))
             return r
         if op in ("Eq", "Ne", "Lt", "Le", "Gt", "Ge"):
+            if a == b:
+                return Const(op in ("Eq", "Le", "Ge"))
             return T(op, a, b)
         return None
 
@@ -411,11 +413,11 @@ class TermDomain(Domain):
             return [(T("fmt", Const(tuple(F_fmt(tpl))) if tpl is not None else TOP, *fs), store)]
         if name == "std::fmt::Arguments::<'a>::from_str" and len(vals) == 1:
             return [(T("fmt", Const((a.v,)) if isinstance(a, Const) else TOP), store)]
-        if name.endswith("IntoIterator>::into_iter") and isinstance(a, IterV):
+        if (name.endswith("IntoIterator>::into_iter") or name == "std::iter::IntoIterator::into_iter") and isinstance(a, IterV):
             return [(a, store)]
         if name == "std::iter::Iterator::rev" and isinstance(a, IterV):
             return [(IterV(tuple(reversed(a.items[a.pos:])), 0), store)]
-        if name.endswith("as std::iter::Iterator>::next") and isinstance(a, IterV):
+        if (name.endswith("as std::iter::Iterator>::next") or name == "std::iter::Iterator::next") and isinstance(a, IterV):
             if a.pos < len(a.items):
                 return [(some(a.items[a.pos]), it.write_ref(store, args[0], IterV(a.items, a.pos + 1)))]
             return [(NONE, store)]
@@ -430,7 +432,7 @@ class TermDomain(Domain):
             return [(VecV(()), store)]
         if name == "std::vec::Vec::<T, A>::push" and isinstance(a, VecV):
             return [(UNIT, it.write_ref(store, args[0], VecV(a.items + (vals[1],))))]
-        if name.endswith("IntoIterator>::into_iter") and isinstance(a, VecV):
+        if (name.endswith("IntoIterator>::into_iter") or name == "std::iter::IntoIterator::into_iter") and isinstance(a, VecV):
             return [(IterV(a.items, 0), store)]
         if name == "<std::vec::IntoIter<T, A> as std::iter::Iterator>::next" and isinstance(a, IterV):
             if a.pos < len(a.items):
